@@ -1,6 +1,9 @@
 package main
 
 import (
+	"go/constant"
+	"go/token"
+
 	"golang.org/x/tools/go/ssa"
 )
 
@@ -153,4 +156,167 @@ func PathAvoiding(from ssa.Instruction, stop func(ssa.Instruction) bool, isTarge
 	}
 	ok := dfs(start)
 	return ok, path
+}
+
+// CountedLoop describes a `for i := a; i < B; i += k` loop recognised on SSA:
+// the header ends in an If on a comparison between a header phi and a bound,
+// the phi has exactly two incoming values (the initial one and itself plus a
+// non-zero constant computed inside the loop), and the comparison keeps the
+// loop going in the direction of the step.
+type CountedLoop struct {
+	Header *ssa.BasicBlock
+	Index  *ssa.Phi
+	Init   ssa.Value
+	Step   int64
+	Bound  ssa.Value
+	Strict bool // i < B (or i > B) rather than <=, >=
+}
+
+func constIntOf(v ssa.Value) (int64, bool) {
+	c, ok := v.(*ssa.Const)
+	if !ok || c.Value == nil {
+		return 0, false
+	}
+	if c.Value.Kind() != constant.Int {
+		return 0, false
+	}
+	n, exact := constant.Int64Val(c.Value)
+	return n, exact
+}
+
+// CountedLoopAt recognises the loop with header block index h of fn.
+func CountedLoopAt(fn *ssa.Function, h int) *CountedLoop {
+	info := InfoOf(fn)
+	body := info.LoopOf[h]
+	if body == nil {
+		return nil
+	}
+	hb := fn.Blocks[h]
+	iff, ok := hb.Instrs[len(hb.Instrs)-1].(*ssa.If)
+	if !ok {
+		return nil
+	}
+	cmp, ok := iff.Cond.(*ssa.BinOp)
+	if !ok {
+		return nil
+	}
+	stays0, stays1 := body[hb.Succs[0].Index], body[hb.Succs[1].Index]
+	if stays0 == stays1 {
+		return nil
+	}
+	op := cmp.Op
+	x, y := cmp.X, cmp.Y
+	if !stays0 { // loop continues on the false edge: negate
+		switch op {
+		case token.LSS:
+			op = token.GEQ
+		case token.LEQ:
+			op = token.GTR
+		case token.GTR:
+			op = token.LEQ
+		case token.GEQ:
+			op = token.LSS
+		default:
+			return nil
+		}
+	}
+	ph, isPhi := x.(*ssa.Phi)
+	if !isPhi || ph.Block() != hb {
+		// bound on the left: B > i  ==  i < B
+		ph, isPhi = y.(*ssa.Phi)
+		if !isPhi || ph.Block() != hb {
+			return nil
+		}
+		x, y = y, x
+		switch op {
+		case token.LSS:
+			op = token.GTR
+		case token.LEQ:
+			op = token.GEQ
+		case token.GTR:
+			op = token.LSS
+		case token.GEQ:
+			op = token.LEQ
+		}
+	}
+	if len(ph.Edges) != 2 {
+		return nil
+	}
+	cl := &CountedLoop{Header: hb, Index: ph, Bound: y}
+	found := false
+	for i, e := range ph.Edges {
+		b, ok := e.(*ssa.BinOp)
+		if !ok || !body[hb.Preds[i].Index] {
+			continue
+		}
+		var k int64
+		switch {
+		case b.Op == token.ADD && b.X == ssa.Value(ph):
+			k, ok = constIntOf(b.Y)
+		case b.Op == token.ADD && b.Y == ssa.Value(ph):
+			k, ok = constIntOf(b.X)
+		case b.Op == token.SUB && b.X == ssa.Value(ph):
+			k, ok = constIntOf(b.Y)
+			k = -k
+		default:
+			ok = false
+		}
+		if !ok || k == 0 {
+			return nil
+		}
+		cl.Step = k
+		cl.Init = ph.Edges[1-i]
+		if body[hb.Preds[1-i].Index] {
+			return nil // both edges come from inside the loop
+		}
+		found = true
+	}
+	if !found {
+		return nil
+	}
+	switch {
+	case cl.Step > 0 && (op == token.LSS || op == token.LEQ):
+		cl.Strict = op == token.LSS
+	case cl.Step < 0 && (op == token.GTR || op == token.GEQ):
+		cl.Strict = op == token.GTR
+	default:
+		return nil
+	}
+	return cl
+}
+
+// LoopInvariant: v is a constant or defined outside the loop with header h,
+// or the length of such a value.
+func LoopInvariant(fn *ssa.Function, h int, v ssa.Value) bool {
+	info := InfoOf(fn)
+	switch x := v.(type) {
+	case *ssa.Const, *ssa.Parameter, *ssa.FreeVar, *ssa.Global:
+		return true
+	case *ssa.Call:
+		if b, ok := x.Call.Value.(*ssa.Builtin); ok && (b.Name() == "len" || b.Name() == "cap") && info.LoopDefs[h][x] {
+			return LoopInvariant(fn, h, x.Call.Args[0])
+		}
+	case *ssa.Convert:
+		if info.LoopDefs[h][x] {
+			return LoopInvariant(fn, h, x.X)
+		}
+	}
+	return !info.LoopDefs[h][v]
+}
+
+// countedIndexPhi: v is the index variable of a counted loop that starts at a
+// non-negative constant and counts upwards (so v >= 0 wherever it is used).
+func countedIndexPhi(v ssa.Value) *CountedLoop {
+	ph, ok := v.(*ssa.Phi)
+	if !ok {
+		return nil
+	}
+	cl := CountedLoopAt(ph.Parent(), ph.Block().Index)
+	if cl == nil || cl.Index != ph || cl.Step <= 0 {
+		return nil
+	}
+	if c, ok := constIntOf(cl.Init); !ok || c < 0 {
+		return nil
+	}
+	return cl
 }
